@@ -188,6 +188,15 @@ func (mgrScenario) Gen(r *Rng, tier string, opts map[string]string) interface{} 
 			p.Events = append(p.Events, mgrEvent{AtMs: t + 2500 + r.Intn(1500), Kind: "new_listener"}, mgrEvent{AtMs: t + 9000, Kind: "old_close"})
 			break
 		}
+		if r.Chance(1, 8) {
+			// a first attempt that cannot move anything and is given up; its acknowledgements arrive late (after the
+			// listener's time-out); the replacement comes up and a second attempt with a new epoch must go through
+			ep := 1000 + r.Intn(50)
+			p.Events = append(p.Events, mgrEvent{AtMs: next(), Kind: "unlink_socket"}, mgrEvent{AtMs: next(), Kind: "hot_restart", N: ep},
+				mgrEvent{AtMs: t + 2300 + r.Intn(300), Kind: "stale_ack", N: ep}, mgrEvent{AtMs: t + 2700, Kind: "new_listener"},
+				mgrEvent{AtMs: t + 3000 + r.Intn(1500), Kind: "hot_restart_again", N: 2000 + r.Intn(50)}, mgrEvent{AtMs: t + 9500, Kind: "old_close"})
+			break
+		}
 		lateListener := r.Chance(1, 4)
 		noListener := !lateListener && r.Chance(1, 6)
 		if !lateListener && !noListener {
@@ -856,7 +865,14 @@ func (w *mgrWorld) director() {
 		case "stale_ack":
 			// every client session acknowledges a hot restart of an epoch the listener is not (or no longer) working on
 			ep := uint64(ev.N)
-			if ep != w.hotEpoch && w.sm != nil {
+			over := false // the attempt for w.hotEpoch has been given up by the listener (2 s) and nothing is in progress
+			if srv := w.old; srv != nil && srv.listener != nil && simrt.Now()-w.hotStartedAt > 2200*time.Millisecond {
+				over = srv.listener.state != hotRestartState
+			}
+			if (ep != w.hotEpoch || over) && w.sm != nil {
+				if ep == w.hotEpoch {
+					simrt.Count("fault.late_hot_restart_ack", 1)
+				}
 				pools := append([]*streamPool(nil), w.sm.pools...)
 				simrt.GoProc(w.pc, "stale-ack", func() {
 					for _, pool := range pools {
